@@ -332,4 +332,24 @@ CHECKS = {
              "encoding.",
         note="The ${...} delimiting itself is C06; CR/CRLF rewriting "
              "applies to text templates too (by design)."),
+    "C14": dict(
+        technique="effect analysis over the call graph of the render entry "
+                  "points; immutability census of the generated preamble; "
+                  "liveness of generated locals swept over all emitters; "
+                  "set-iteration audit; ordering rule in cook(); lock shape",
+        text="Decides necessary structural conditions only: no function "
+             "reachable from render/__call__/include (cook_check excluded) "
+             "stores into the template instance, module globals or "
+             "class-level containers; scope, global context, output stream "
+             "and repeat dictionary are constructed per call and the "
+             "caller's objects are only reached through a ** copy; the "
+             "generated module's preamble binds immutable objects that no "
+             "fragment rebinds; every generated local that survives a child "
+             "emission is per-node (all 31 emitters) and set iteration "
+             "occurs only where emissions commute; cook() publishes before "
+             "it flags; the module loader's lock is held in try/finally.",
+        note="NECESSARY CONDITIONS ONLY.  Thread schedules (interleavings "
+             "of cook_check, the unlocked check-then-act of the loader "
+             "registry and of utils.module_cache) and cross-process equality "
+             "are not decided by any rule here."),
 }
